@@ -10,25 +10,26 @@ import (
 
 // SynOpts tunes the syntax grammar generator.
 type SynOpts struct {
-	MaxNT       int // 1..5
-	MaxTerms    int // 1..6
-	ErrorAlts   bool
-	Actions     bool     // decorate alternatives with recording actions
-	Stratum     int      // 0 = mixed, 1 = families, 2 = random, 3 = with junk NTs
-	ActPkg      string   // import path of the action helper ("" = verif.local/h/act)
-	AllRec      bool     // every alternative gets a recording action
-	NoTokCast   bool     // never use $Tn
-	LongBodies  bool     // dedicated stratum with bodies >= 11 symbols
-	Terms       []gr.Sym // use exactly these terminals (nil: draw names)
-	NoEmpty     bool     // no alternative is the keyword empty
-	NoSplit     bool     // every nonterminal is defined by one rule
-	RRTwin      bool     // add a nonterminal with the same body as an existing alternative (reduce/reduce conflict), declared at a random place
-	SplitMore   bool     // split definitions more often
-	Large       bool     // several family trees under one start symbol: dozens of states and productions
-	ErrIdiom    bool     // with ErrorAlts: always the statement-list idiom (default: one grammar in three)
-	DupAlt      bool     // one grammar in three has an alternative written twice in one definition (the first copy wins)
-	ChainsEvery int      // one family grammar in ChainsEvery starts with the chain family (0: left to chance)
-	Chains      bool     // one grammar in three starts with the chain family (FIRST sets that settle slowly)
+	MaxNT      int // 1..5
+	MaxTerms   int // 1..6
+	ErrorAlts  bool
+	Actions    bool     // decorate alternatives with recording actions
+	Stratum    int      // 0 = mixed, 1 = families, 2 = random, 3 = with junk NTs
+	ActPkg     string   // import path of the action helper ("" = verif.local/h/act)
+	AllRec     bool     // every alternative gets a recording action
+	NoTokCast  bool     // never use $Tn
+	LongBodies bool     // dedicated stratum with bodies >= 11 symbols
+	Terms      []gr.Sym // use exactly these terminals (nil: draw names)
+	NoEmpty    bool     // no alternative is the keyword empty
+	NoSplit    bool     // every nonterminal is defined by one rule
+	RRTwin     bool     // add a nonterminal with the same body as an existing alternative (reduce/reduce conflict), declared at a random place
+	SplitMore  bool     // split definitions more often
+	Large      bool     // several family trees under one start symbol: dozens of states and productions
+	ErrIdiom   bool     // with ErrorAlts: always the statement-list idiom (default: one grammar in three)
+	DupAlt     bool     // one grammar in three has an alternative written twice in one definition (the first copy wins)
+	Force      []int    // families one family grammar in ForceEvery starts with (14 chain, 16 same body in two contexts, …)
+	ForceEvery int
+	Chains     bool // one grammar in three starts with the chain family (FIRST sets that settle slowly)
 }
 
 var ntNames = []string{"A", "B", "C", "D", "E", "F", "G", "H", "I", "J", "K", "L", "M", "N", "O", "P"}
@@ -487,8 +488,10 @@ func SynGrammar(o SynOpts) *rapid.Generator[*gr.Grammar] {
 		case -1:
 		case 1, 3:
 			// the first production must be a nonterminal: force one
-			if (o.Chains && rapid.IntRange(0, 2).Draw(t, "chains") == 0) || (o.ChainsEvery > 0 && rapid.IntRange(0, o.ChainsEvery-1).Draw(t, "chainsEvery") == 0) {
+			if o.Chains && rapid.IntRange(0, 2).Draw(t, "chains") == 0 {
 				b.force = 14
+			} else if o.ForceEvery > 0 && len(o.Force) > 0 && rapid.IntRange(0, o.ForceEvery-1).Draw(t, "forceEvery") == 0 {
+				b.force = rapid.SampledFrom(o.Force).Draw(t, "forcedFamily")
 			}
 			b.family(3)
 		default:
